@@ -21,31 +21,31 @@ CHECKS = {
  "C09": dict(
   engine="E1",
   technique=TECH_E1 + "; all token sequences / small files / literal characters / description blocks, oracle = position-free AST equivalence + re-parse + idempotence",
-  text="For every source in the enumerated space that the parser accepts (all lines of <=5/6 symbols over a 27-symbol literal-rich alphabet; all files of <=3/4 lines over 24 statement representatives x 3 indentations; every ASCII and 10 non-ASCII characters in string/regex/comment/description positions; all description blocks of <=5/7 lines; width-boundary families; fixtures and their single-chunk deletions): Fmt succeeds, its output parses, the position-free tree (types, tags, marks, qualifiers, keys, operators, literal kinds and values, attached comments, descriptions as paragraphs of words) and the ordered comment tokens are unchanged, and Fmt(Fmt(x)) == Fmt(x).",
+  text="For every source in the enumerated space that the parser accepts (all lines of <=5/6 symbols over a 27-symbol literal-rich alphabet; all files of <=3/4 lines over 24 statement representatives x 3 indentations; every ASCII and 10 non-ASCII characters in string/regex/comment/description positions; all description blocks of <=5/7 lines; width-boundary families; fixtures and their single-chunk deletions): Fmt succeeds, its output parses, the position-free tree (types, tags, marks, qualifiers, keys, operators, literal kinds and values, attached comments, descriptions as paragraphs of words) and the ordered comment tokens are unchanged, and Fmt(Fmt(x)) == Fmt(x). Lines ending in CR LF (as a symbol of the line alphabet and as the line terminator of whole files).",
   note="tree equivalence is the explicit dump in harness/bcl/bgen/tree.go; larger files and other runes are outside the bound",
   design="3/C09"),
  "C19": dict(
   engine="E1",
   technique=TECH_E1 + "; same source space as C09 plus layout families; oracle = edits well-formed, applied edits == Fmt, LSP edits == FmtDiffs",
-  text="For every source in C09's space plus layout families (trailing comments, several statements per line, multi-line tokens, blank runs) that the formatter accepts: FmtDiffs returns without failure; edits ascending, non-overlapping, 0<=from<=to<=#lines; applying them bottom-up to the line array equals Fmt(source) modulo trailing blank lines; the LSP astFormatter offers the same ranges and texts.",
+  text="For every source in C09's space plus layout families (trailing comments, several statements per line, multi-line tokens, blank runs) that the formatter accepts: FmtDiffs returns without failure; edits ascending, non-overlapping, 0<=from<=to<=#lines; applying them bottom-up to the line array equals Fmt(source) modulo trailing blank lines; the LSP astFormatter offers the same ranges and texts. Lines ending in CR LF (as a symbol of the line alphabet and as the line terminator of whole files).",
   note="edit semantics taken from genlsp/format.go (whole-line ranges); astFormatter reached through an overlay-only export shim",
   design="3/C19"),
  "C01": dict(
   engine="E1",
   technique=TECH_E1 + "; every (kind x label x context) schema and every ordered field pair x every message in the product of boundary value alphabets, oracle decode(encode(m)) == m",
-  text="Every single-field message type over 23 field kinds x 4 labels x 8 contexts (top, nested, flattened, oneof arm, array element, map value, scalar oneof arm, exposed oneof) and every ordered pair of top-level fields over a 14-kind alphabet, built as raw proto descriptors, plus every object declared by the j5s single-field / nesting / enum / reference / annotation / bundle programs with the descriptors the real j5s compiler produced for it (~1900 schemas; the value model is derived from the j5s source, not from the compiled descriptor), plus (thorough) every single-field schema placed one level deeper below an object / flattened object / oneof arm / array element / map value, is round-tripped for every message in the product of the per-field boundary alphabets (integer extremes, escapes / controls / non-BMP text, float extremes, base64 edge bytes, date/timestamp/decimal boundaries, every enum option incl. gaps and prefix-like names, list and map shapes, optional-with-zero): encode succeeds, decode of the output succeeds, decoded == original under the property's normalisation.",
+  text="Every single-field message type over 23 field kinds x 4 labels x 8 contexts (top, nested, flattened, oneof arm, array element, map value, scalar oneof arm, exposed oneof) and every ordered pair of top-level fields over a 14-kind alphabet, built as raw proto descriptors, plus every object declared by the j5s single-field / nesting / enum / reference / annotation / bundle programs with the descriptors the real j5s compiler produced for it (~1900 schemas; the value model is derived from the j5s source, not from the compiled descriptor), plus (thorough) every single-field schema placed one level deeper below an object / flattened object / oneof arm / array element / map value, is round-tripped for every message in the product of the per-field boundary alphabets (integer extremes, escapes / controls / non-BMP text, float extremes, base64 edge bytes, date/timestamp/decimal boundaries, every enum option incl. gaps and prefix-like names, list and map shapes, optional-with-zero): encode succeeds, decode of the output succeeds, decoded == original under the property's normalisation. Enums in which one option's short name is another option's prefixed name (HIGH next to LEVEL_HIGH), in both declaration orders.",
   note="values outside the alphabets, >2 top-level fields, nesting >3 not covered; j5s-compiled schemas are linked against the process-wide registry for well-known types (as generated code is); Any fields of j5s schemas are skipped",
   design="3/C01"),
  "C03": dict(
   engine="E1",
   technique=TECH_E1 + "; documented spelling variations and exactly-one-fault injection at every node of every canonical document",
-  text="For the canonical document (independent reference encoder) of every message of C01's single-field corpus and a slice of the pair corpus: white space, reversed member order, explicit nulls, every alternate spelling at every leaf (quoted/bare numbers incl. decimal and 64-bit extremes, 4 base64 forms, enum prefix, timestamp offsets) and scalars as url.Values must decode to the same message as the canonical spelling (strict equality) and to the original; and one fault per node from the listed classes (wrong JSON type, unparsable / out-of-range numbers quoted and bare, invalid base64/date/decimal/timestamp, unknown enum name, unknown key, two keys in a oneof, contradicting or unknown \"!type\", scalar for array) must be rejected with an error.",
+  text="For the canonical document (independent reference encoder) of every message of C01's single-field corpus and a slice of the pair corpus: white space, reversed member order, explicit nulls, every alternate spelling at every leaf (quoted/bare numbers incl. decimal and 64-bit extremes, 4 base64 forms, enum prefix, timestamp offsets) and scalars as url.Values must decode to the same message as the canonical spelling (strict equality) and to the original; and one fault per node from the listed classes (wrong JSON type, unparsable / out-of-range numbers quoted and bare, invalid base64/date/decimal/timestamp, unknown enum name, unknown key, two keys in a oneof, contradicting or unknown \"!type\", scalar for array) must be rejected with an error. Enums in which one option's short name is another option's prefixed name: the canonical spelling always denotes its own option.",
   note="single variation / single fault per document; Any payload internals are opaque and not varied",
   design="3/C03"),
  "C06": dict(
   engine="E1",
   technique=TECH_E1 + "; all JSON token sequences up to a length bound per target type, shape matrix, all prefixes / byte substitutions, nesting bombs, url.Values menus; crash / hang oracle with subprocess isolation",
-  text="No panic, runtime fatal, stack exhaustion or hang for: every concatenation of <=4 (quick) / <=5 (thorough) tokens of a 16-symbol JSON alphabet into 12 target types (every structural kind incl. recursive types and a oneof root); every kind x label x context schema x 45 JSON values of depth <=2 in the field position; every prefix and every single-byte substitution (12 bytes) of a canonical document per schema; nesting bombs to depth 10^4 (10^5 thorough) through every recursive path, 10^5-digit numbers / keys / escapes; growth oracle without a clock: for 20 input shapes (every recursive path closed / truncated, many keys / elements / map keys / unknown keys, long strings / digits) a 4x larger input may allocate at most 10x more bytes (linear = 4x, quadratic = 16x); url.Values with 22 keys x 12 value lists per schema and all key pairs of a 17-key menu. Also: 9 target types the reflection does not support (maps with non-string keys, fixed64 / sfixed32, Empty, StringValue, FieldMask; singular and repeated) x 16 documents and 8 queries, each decoded twice on one codec; an amplification oracle (documents of at most ~60 bytes, e.g. decimals with 3,000,000 as exponent, must not allocate more than 1 MiB).",
+  text="No panic, runtime fatal, stack exhaustion or hang for: every concatenation of <=4 (quick) / <=5 (thorough) tokens of a 16-symbol JSON alphabet into 12 target types (every structural kind incl. recursive types and a oneof root); every kind x label x context schema x 45 JSON values of depth <=2 in the field position; every prefix and every single-byte substitution (12 bytes) of a canonical document per schema; nesting bombs to depth 10^4 (10^5 thorough) through every recursive path, 10^5-digit numbers / keys / escapes; growth oracle without a clock: for 20 input shapes (every recursive path closed / truncated, many keys / elements / map keys / unknown keys, long strings / digits) a 4x larger input may allocate at most 10x more bytes (linear = 4x, quadratic = 16x); url.Values with 22 keys x 12 value lists per schema and all key pairs of a 17-key menu. Also: 9 target types the reflection does not support (maps with non-string keys, fixed64 / sfixed32, Empty, StringValue, FieldMask; singular and repeated) x 16 documents and 8 queries, each decoded twice on one codec; an amplification oracle (documents of at most ~60 bytes, e.g. decimals with 3,000,000 as exponent, must not allocate more than 1 MiB). Any envelopes: 22 type names (messages, unknown names, names registered as enum / extension / package, malformed names, non-strings) x 13 value shapes x member order, on codecs with and without WithProtoToAny.",
   note="termination by a 120 s watchdog; url.Values iteration order inside QueryToProto is a Go map order that is repeated, not owned",
   design="3/C06"),
  "C08": dict(
@@ -57,7 +57,7 @@ CHECKS = {
  "C18": dict(
   engine="E1",
   technique=TECH_E1 + "; full (proto field type x label x annotation) matrix of raw descriptor sets plus structural families; oracle = total + path/kind/name consistency + codec usable",
-  text="Every descriptor set of the matrix 31 field types (all 15 proto scalar kinds, enums with and without UNSPECIFIED, messages, oneof wrapper, self reference, well-known and j5 types) x 4 labels x 90 annotations ((j5.ext.v1.field) of every type, (buf.validate.field) of every type at boundary values, (j5.list.v1.field) of every type, PSM key options; consistent with the field or not) and ~60 structural sets (message options, enum shapes, real/synthetic/exposed oneofs, recursion through field/array/map/oneof/flatten, flatten chains, JSON-name collisions, nested-name collisions) is reflected through SchemaSetFromFiles and SchemaCache.Schema: no panic / fatal / hang, (schema xor error), every property path resolves to a field of the matching kind, client property names unique, and the codec encodes and decodes the empty and a populated message of every reflected type. Thorough adds all pairs of annotations on one field. Also: a proto oneof named type next to an ordinary field, two-level flatten chains with a repeated property name; for every type whose schema does not build, the lookup is repeated on the same cache and NewRoot / the codec are called twice (must fail again, never (nil, nil), never crash). The oracle classifies oneof wrappers by its own reading of the rule.",
+  text="Every descriptor set of the matrix 31 field types (all 15 proto scalar kinds, enums with and without UNSPECIFIED, messages, oneof wrapper, self reference, well-known and j5 types) x 4 labels x 90 annotations ((j5.ext.v1.field) of every type, (buf.validate.field) of every type at boundary values, (j5.list.v1.field) of every type, PSM key options; consistent with the field or not) and ~60 structural sets (message options, enum shapes, real/synthetic/exposed oneofs, recursion through field/array/map/oneof/flatten, flatten chains, JSON-name collisions, nested-name collisions) is reflected through SchemaSetFromFiles and SchemaCache.Schema: no panic / fatal / hang, (schema xor error), every property path resolves to a field of the matching kind, client property names unique, and the codec encodes and decodes the empty and a populated message of every reflected type. Thorough adds all pairs of annotations on one field. Also: a proto oneof named type next to an ordinary field, two-level flatten chains with a repeated property name; for every type whose schema does not build, the lookup is repeated on the same cache and NewRoot / the codec are called twice (must fail again, never (nil, nil), never crash). The oracle classifies oneof wrappers by its own reading of the rule. Exposed oneofs declared by a message that is flattened into its parent (overlapping field numbers); reference cycles in which one member does not reflect, looked up in both orders: every lookup on the shared cache must agree with a fresh cache asked for that type alone.",
   note="options are typed extension messages (protodesc, no protoc); 10 open known findings (Duration / Struct / array-of-Any / map-of-Any codec support, nested-name collision) are listed in known_findings.json",
   design="3/C18"),
  "C10": dict(
@@ -123,7 +123,7 @@ CHECKS = {
  "C14": dict(
   engine="E1+E3",
   technique=TECH_E1 + "; E3: stateless deviation-bounded exploration of every iteration order the compile / print code consumes: tools/vinstr (go/types) rewrites each range over a Go map, protoreflect Message / Map Range, RangeFiles, RangeExtensions and maps.Keys / Values call in the 14 compile / print packages (overlay build, /repo untouched) so that the explorer picks the order at each dynamic choice point; every execution runs the real compiler and printer to completion and is compared byte for byte with the canonical run",
-  text="7 rich multi-file / multi-package bundles (two with hand-written proto files in the mix) + ~230 multi-file programs of the reference / service / shape families: (1) every permutation of the file listing x of the package listing returned by the file source (~5300 runs); (2) every sequence of <= 3 CompilePackage calls with repetition on one PackageSet, each call's output compared (~6800); (3) every ordered pair 'compile bundle X, then Y' in one process (~1300); (4) E3: all alternatives (all n! orders for n <= 4, else reversal / rotations / adjacent transpositions) at each of the ~115 dynamic choice points with <= 1 deviating point (quick) / <= 2 (thorough), replay divergence is a hard error; (5) reported: 3 fresh processes. Observed: deterministic-marshal bytes of every FileDescriptorProto, printed text of every file, and the sequence of files CompilePackage returns.",
+  text="7 rich multi-file / multi-package bundles (two with hand-written proto files in the mix) + ~230 multi-file programs of the reference / service / shape families: (1) every permutation of the file listing x of the package listing returned by the file source (~5300 runs); (2) every sequence of <= 3 CompilePackage calls with repetition on one PackageSet, each call's output compared (~6800); (3) every ordered pair 'compile bundle X, then Y' in one process (~1300); (4) E3: all alternatives (all n! orders for n <= 4, else reversal / rotations / adjacent transpositions) at each of the ~115 dynamic choice points with <= 1 deviating point (quick) / <= 2 (thorough), replay divergence is a hard error; (5) reported: 3 fresh processes. Observed: deterministic-marshal bytes of every FileDescriptorProto, printed text of every file, and the sequence of files CompilePackage returns. Bundles with several map-valued option entries per option, with stale and orphaned generated .j5s.proto files in the listing, and with external dependencies offered through the tool's own dependency set (internal/source, also instrumented) whose directories are prefixes of one another (d/v1, d/v1beta1, d/v10, d/v1/sub) and declare the same type names.",
   note="iteration inside protocompile / protobuf-go not visible at their API is not owned; choice points that only run while process-wide caches fill are covered by the fresh-process family only",
   design="3/C14"),
 }
